@@ -11,6 +11,12 @@ def run(B, case, weights_flat):
     spec = case['spec']
     shapes = grammars.weight_shapes(spec)
     tensors = {name: B.tensor(weights_flat[name], shape) for name, shape in shapes.items()}
+    for name, pat in (case.get('patterned') or {}).items():
+        # the same dense weights (semiring zero off the diagonal) handed over as a PatternedTensor with a diagonal pattern
+        assert pat == 'diag' and len(shapes[name]) == 2 and shapes[name][0] == shapes[name][1]
+        n = shapes[name][0]
+        k = B.indices.PhysicalAxis(n)
+        tensors[name] = B.indices.PatternedTensor(B.tensor([weights_flat[name][i * n + i] for i in range(n)], (n,)), (k,), (k, k), B.pyzero)
     fgg = grammars.build_fgg(spec, B.fggs, tensors)
     opts = dict(method=case['method'], semiring=B.sr, kmax=case['kmax'], tol=case['tol'])
     out = {'warned': False, 'exception': None, 'values': None}
